@@ -257,8 +257,13 @@ impl SubCheck for Sequence {
 		// for a share of the cases the Params come out of a parsed request (`Request::params()`, the route an
 		// RPC middleware takes) instead of `Params::new`
 		let req_text = format!(r#"{{"jsonrpc":"2.0","id":1,"method":"m"{}}}"#, text.as_ref().map(|t| format!(r#","params":{t}"#)).unwrap_or_default());
-		// (`"params":null` in a request is the same as no params member - C01 - so that text keeps the direct route)
-		let req: Option<jsonrpsee_types::Request> = if case.outer.0 % 2 == 1 && inner.as_deref().map(|t| t.trim()) != Some("null") { serde_json::from_str(&req_text).ok() } else { None };
+		let req: Option<jsonrpsee_types::Request> = if case.outer.0 % 2 == 1 { serde_json::from_str(&req_text).ok() } else { None };
+		// (`"params":null` in a request is the same as no params member: through this route the text `null` behaves as absent
+		// params, while `Params::new(Some("null"))` is a non-array text)
+		let null_in_request = req.is_some() && inner.as_deref().map(|t| t.trim()) == Some("null");
+		if null_in_request {
+			obs.class("params-null-in-a-parsed-request");
+		}
 		if req.is_some() {
 			obs.class("params-taken-from-a-parsed-request");
 		}
@@ -293,10 +298,11 @@ impl SubCheck for Sequence {
 				}
 				if !is_array {
 					// absent behaves as the empty array; any other non-array text is a shape mismatch
-					match (&case.shape, &got) {
-						(Shape::Absent, Ok(None)) if rd.optional => {}
-						(Shape::Absent, Err(-32602)) if !rd.optional => {}
-						(Shape::Other(..), Err(-32602)) => failed = true,
+					let absent = matches!(case.shape, Shape::Absent) || null_in_request;
+					match (absent, &got) {
+						(true, Ok(None)) if rd.optional => {}
+						(true, Err(-32602)) if !rd.optional => {}
+						(false, Err(-32602)) => failed = true,
 						_ => fails.push(("sequence/non-array-params".into(), ctx())),
 					}
 					continue;
